@@ -238,3 +238,16 @@ package storage
 //@ func (MintDB).Close
 //@   trusted
 //@   pure
+
+// ---- rely/guarantee tier (C01, C03): what ONE step (one MintDB / Lightning call) of
+// another concurrent request may do to the store. Every such step of the functions
+// verified in this tier is proved to stay within these clauses (guarantee
+// obligations), so they may be assumed between any two steps.
+// spent proofs stay spent, with their row
+//@ rely @spentgrows [C01] forall y Str :: old(db.spent)[y] ==> db.spent[y] && db.spentrow[y] == old(db.spentrow)[y]
+// no step makes a proof both locked (pending) and spent
+//@ rely @lockedorspent [C01] (forall y Str :: !(old(db.pending)[y] && old(db.spent)[y])) ==> (forall y Str :: !(db.pending[y] && db.spent[y]))
+// stored signatures stay
+//@ rely @siggrows [C03] forall b Str :: old(db.sig)[b] ==> db.sig[b] && db.sigrow[b] == old(db.sigrow)[b]
+// an issued mint quote stays issued; quotes are never removed and keep their amount
+//@ rely @issuedstays [C03] forall q Str :: old(db.mq)[q] ==> db.mq[q] && db.mqrow[q].Amount == old(db.mqrow)[q].Amount && (old(db.mqrow)[q].State == nut04.Issued ==> db.mqrow[q].State == nut04.Issued)
